@@ -1,6 +1,6 @@
 # C14 — graph traversals return exactly the reachable elements in documented order
 import vlib
-from checks.db_common import run_db, run_dbsmall, merge_runs
+from checks.db_common import run_db, add_big, spec_level, run_dbsmall, merge_runs
 
 META = dict(
     engine="coq+hx_core",
@@ -40,10 +40,12 @@ def run(ctx):
     # quick: every id-reuse variant of every graph; thorough: all variants up to n + m <= 6, every 8th graph beyond
     reuse_full, reuse_k = (6, 1) if quick else (6, 8)
     r = run_db(ctx, PROFILE, n, steps)
+    r = add_big(ctx, r, 40 if ctx.tier == "quick" else 800)
     s = run_dbsmall(ctx, nodes, edges, paths=False, traverse=True, sub="small", reuse_full=reuse_full, reuse_k=reuse_k)
     m = merge_runs(r, s)
     scope = "every graph with m >= 1" if reuse_k == 1 else "all graphs with m >= 1 and (n <= 2 or n + m <= %d) and every %dth of the remaining graphs" % (reuse_full, reuse_k)
     failures = [f for f in m["failures"] if f["cls"].startswith(CLASSES) or f["cls"] in COMMON]
+    failures += [f for f in spec_level(m) if f["cls"] == "model-mismatch"]
     return dict(
         evaluations=m["histories"], distinct_nontrivial=m["nontrivial"], samples=m["samples"], dist=m["dist"],
         rule="(1) %d generated query histories (profile %s, <= %d steps, mostly-valid operations over live ids/aliases plus an invalid stream; searches with "
